@@ -44,7 +44,10 @@ impl OpeningHoursExpression {
             return kind == RuleKind::Closed;
         };
 
-        tail.kind == kind && tail.is_constant()
+        // A fallback rule only applies to days that no previous rule covered.
+        tail.kind == kind
+            && tail.is_constant()
+            && (tail.operator != RuleOperator::Fallback || std::ptr::eq(tail, &self.rules[0]))
     }
 
     /// Convert the expression into a normalized form. It will not affect the meaning of the
